@@ -22,8 +22,16 @@ def run_property(prop, tier):
         mod.run(rep, c, tier)
     if hasattr(mod, "run_cross"):
         mod.run_cross(rep, ctxs, tier)
-    if tier == "thorough" and hasattr(mod, "selftest"):
-        rep.selftest = mod.selftest(rep)
+    if tier == "thorough":
+        # self-test of the checker (evidence about the checker, not a verdict on the tree): every registered
+        # mutant of this property must be reported, every refactoring fixture must stay silent
+        from .mutate import selftest
+        base = sorted({i["key"] for i in rep.instances if not i["ok"]})
+        rep.selftest = selftest(prop, base)
+        st = rep.selftest
+        print("self-test: %d mutants, %d caught, %d silent fixtures ok, missed=%s false_alarms=%s known_misses=%s skipped=%s" % (
+            st.get("mutants", 0), st.get("caught", 0), st.get("silent_ok", 0), st.get("missed"), st.get("false_alarms"),
+            st.get("known_misses"), st.get("skipped")))
     return finish(rep, ctxs, mod.EXPLANATION, mod.RULE, TRUSTED + getattr(mod, "TRUSTED", []),
                   ASSUME + getattr(mod, "ASSUME", []))
 
